@@ -8,7 +8,7 @@
 From Coq Require Import NArith ZArith List Bool.
 From F8 Require Import Codec.Bytes Codec.Meta Codec.Extract Codec.Decode Codec.Encode Codec.Render Codec.Example
                        C02.Spec_C02 C02.WfC02 C02.TokenProofs C02.AuxProofs C02.EncodeProofs
-                       C01.Spec_C01 C01.WfC01 C01.ExtractProofs C01.FlatTheorem C01.RoundtripProofs.
+                       C01.Spec_C01 C01.WfC01 C01.WfGroups C01.ExtractProofs C01.FlatTheorem C01.GroupRoundtripTheorem C01.RoundtripProofs.
 Import ListNotations.
 Local Open Scope N_scope.
 
@@ -48,6 +48,39 @@ Theorem c01_roundtrip_partial : forall c m,
     content c m <> None /\ content c m' = content c m /\ m_type m' = m_type m.
 Proof. exact c01_roundtrip_partial_lemma. Qed.
 Print Assumptions c01_roundtrip_partial.
+
+(* THE ROUND TRIP WITH REPEATING GROUPS.  Same statement as c01_roundtrip_partial with c01_flat
+   replaced by c01_groups (C01/WfGroups.v, decidable, evaluated at run time on generated messages):
+     the BODY is any content tree accepted by wf_msg (every element non-empty and starting with its
+     position-1 field, every count field's value = number of its elements, no tag of a group at an
+     enclosing level: wf_ctx "unambiguous") whose nodes are decodable (dnodes_ok: legal, positioned,
+     value canonical / < 2048 bytes / no SOH, NUL; a count field carries elements exactly when the
+     decoder looks for them; every element has its mandatory fields and no tag twice) --
+     ANY number of elements nested to ANY depth;
+     the header has no group element and no Length-typed field, the trailer carries only CheckSum,
+     the body has no Length-typed field at message level (inside elements they are plain fields).
+   Proof: byte-level port of DESIGN Appendix A.4 (C01/GroupRoundtripDecode.v DE_all: decode_group
+   inverts encode_group by induction on the tree size, suffix lemma for the field loop, explicit
+   fuel bound 3 tokens + 3), lifted through dec_loop / mbase_decode / msg_decode / factory and the
+   re-encoding of the decoded object.
+   Still excluded (covered by the differential run only): group elements in the HEADER (FIX44
+   NoHops), trailer fields (Signature), Length/data pairs at message level (C06 proves the dec_loop
+   turn for an adjacent pair; pairs inside groups are mishandled by the decoder: C06's finding). *)
+Theorem c01_roundtrip_groups_partial : forall c m,
+  render_ok c -> wf_msg c m = true -> fresh m = true -> vals_canonical c m = true -> c01_groups c m = true ->
+  exists b m1 m' m2,
+    msg_encode c m = Ok (b, m1) /\ factory c real_caps b false false = Ok m' /\
+    msg_encode c m' = Ok (b, m2) /\
+    content c m <> None /\ content c m' = content c m /\ m_type m' = m_type m.
+Proof. exact c01_roundtrip_groups_partial_lemma. Qed.
+Print Assumptions c01_roundtrip_groups_partial.
+
+(* Non-vacuity of c01_roundtrip_groups_partial: two group elements, the second with two nested ones. *)
+Theorem c01_groups_nonvacuous :
+  render_ok ex_ctx /\ wf_msg ex_ctx ex_list = true /\ fresh ex_list = true /\ vals_canonical ex_ctx ex_list = true /\
+  c01_groups ex_ctx ex_list = true.
+Proof. exact c01_groups_nonvacuous_lemma. Qed.
+Print Assumptions c01_groups_nonvacuous.
 
 (* Non-vacuity of c01_roundtrip_partial's hypotheses, on a Heartbeat whose MsgSeqNum is the NEGATIVE
    integer -5: since a8219b1 negative ints are canonical, i.e. inside the theorem's domain. *)
